@@ -324,15 +324,19 @@ def _shard_files(tag, imports, defs, cases, shard):
             f.write('Import ListNotations.\nOpen Scope string_scope.\nOpen Scope Z_scope.\n')
             f.write(defs + '\n')
             f.write('Definition cases_ : list (nat * bool) := [\n')
-            f.write(';\n'.join(' (%d%%nat, %s)' % (k + i, c) for i, c in enumerate(chunk)))
+            # indices are LOCAL to the shard (large nat literals make coqc slow and noisy); run_cases adds k
+            f.write(';\n'.join(' (%d%%nat, %s)' % (i, c) for i, c in enumerate(chunk)))
             f.write('\n].\nEval vm_compute in (failing cases_).\n')
-        files.append(fn)
+        files.append((fn, k))
     return d, files
 
 
 def _coqc_one(fn):
+    off = 0
+    if isinstance(fn, tuple):
+        fn, off = fn
     rc, out, wall = run(['coqc'] + QFLAGS + [fn], timeout=1800, cwd=os.path.dirname(fn))
-    return fn, rc, out
+    return (fn, off), rc, out
 
 
 def run_cases(tag, imports, cases, defs='', shard=300):
@@ -344,14 +348,14 @@ def run_cases(tag, imports, cases, defs='', shard=300):
     d, files = _shard_files(tag, imports, defs, cases, shard)
     failing = []
     with ThreadPoolExecutor(max_workers=NPROC) as ex:
-        for fn, rc, out in ex.map(_coqc_one, files):
+        for (fn, off), rc, out in ex.map(_coqc_one, files):
             if rc != 0:
                 raise RuntimeError('case file %s does not evaluate:\n%s' % (fn, out[-3000:]))
             m = re.search(r'=\s*\[(.*?)\]\s*:\s*list nat', out, re.S)
             if not m:
                 raise RuntimeError('cannot parse coqc output for %s:\n%s' % (fn, out[-2000:]))
             body = m.group(1).replace('%nat', '')
-            failing += [int(t) for t in re.findall(r'\d+', body)]
+            failing += [off + int(t) for t in re.findall(r'\d+', body)]
     shutil.rmtree(d, ignore_errors=True)
     return sorted(failing)
 
@@ -374,25 +378,26 @@ def run_groups(tag, imports, groups, shard=150):
             f.write('From SSJ Require Import F64 PyNum CaseFmt %s.\n' % ' '.join(imports))
             f.write('Import ListNotations.\nOpen Scope string_scope.\nOpen Scope Z_scope.\n')
             lines = []
+            base = len(index)
             for gi in range(k, min(k + shard, len(groups))):
                 defs, exprs = groups[gi]
                 f.write(defs + '\n')
                 for ei, e in enumerate(exprs):
-                    lines.append(' (%d%%nat, %s)' % (len(index), e))
+                    lines.append(' (%d%%nat, %s)' % (len(index) - base, e))     # shard-local number
                     index.append((gi, ei))
             f.write('Definition cases_ : list (nat * bool) := [\n' + ';\n'.join(lines) + '\n].\n')
             f.write('Eval vm_compute in (failing cases_).\n')
-        files.append(fn)
+        files.append((fn, base))
     bad = set()
     with ThreadPoolExecutor(max_workers=NPROC) as ex:
-        for fn, rc, out in ex.map(_coqc_one, files):
+        for (fn, base), rc, out in ex.map(_coqc_one, files):
             if rc != 0:
                 raise RuntimeError('case file %s does not evaluate:\n%s' % (fn, out[-3000:]))
             m = re.search(r'=\s*\[(.*?)\]\s*:\s*list nat', out, re.S)
             if not m:
                 raise RuntimeError('cannot parse coqc output for %s:\n%s' % (fn, out[-2000:]))
             for t in re.findall(r'\d+', m.group(1).replace('%nat', '')):
-                bad.add(index[int(t)])
+                bad.add(index[base + int(t)])
     shutil.rmtree(d, ignore_errors=True)
     return bad
 
